@@ -467,7 +467,7 @@ func (cf *Frame) evalTargets1(src string, pre *State) ([]modTarget, error) {
 	if err != nil {
 		return nil, err
 	}
-	c := &evalCtx{fr: cf, cur: pre, old: pre, vars: map[string]*Val{}, pkg: cf.specPkg}
+	c := &evalCtx{fr: cf, cur: pre, old: pre, vars: map[string]*Val{}, pkg: cf.specPkg, noAlias: true}
 	for k, v := range cf.specVars {
 		c.vars[k] = v
 	}
@@ -1011,6 +1011,7 @@ func verifyFunction(g *G, fn *ssa.Function, spec *FuncSpec) *FuncResult {
 		return &FuncResult{Key: fr.key, Enc: e, Obls: e.obls}
 	}
 	fr.curBlock = nil
+	fr.atExit = true
 	fr.specVars = map[string]*Val{}
 	bindResults(fr, res)
 	ro := e.oblige("vacuity", "exit reachable", "true", out.pc, nil, fn.Pos(), "")
@@ -1051,9 +1052,16 @@ func verifyFunction(g *G, fn *ssa.Function, spec *FuncSpec) *FuncResult {
 		}
 	} else if spec != nil {
 		for _, c := range append(append([]*Clause{}, fr.extraEnsures...), spec.Ensures...) {
+			fr.unaliased = ""
 			t, err := fr.evalClause(c, out, fr.entry, nil, nil)
 			if err != nil {
 				fr.bindErr(c, err)
+				continue
+			}
+			if fr.unaliased != "" && strings.HasPrefix(c.Label, "conform:") {
+				// the clause speaks about interface ghost state this implementation has no counterpart of
+				// (e.g. a call counter): it cannot be decided on the implementation and stays an assumption
+				e.abstr[fmt.Sprintf("conformance clause [%s] of %s not checked: %s has no abstraction for this implementation", c.Label, fr.key, fr.unaliased)] = true
 				continue
 			}
 			o := e.oblige("post", c.Label, out.pc, t, c.Props, fn.Pos(), "")
@@ -1175,6 +1183,12 @@ func (fr *Frame) bindConforms(spec *FuncSpec, args []*Val, st *State) {
 		self.GoT = it
 	}
 	fr.env["self"] = self
+	if al := e.g.specs.Abstractions[typeKey(e.g, recvT)]; al != nil {
+		fr.ghostAlias, fr.aliasSelf = al, self
+		rv := *args[0]
+		rv.GoT = recvT
+		fr.aliasRecv = &rv
+	}
 	names := is.Names
 	for i, n := range names {
 		if i == 0 || i >= len(args) {
